@@ -3,7 +3,7 @@
    OGenesis is excluded by an explicit hypothesis. *)
 From Coq Require Import ZArith NArith List Bool.
 From FR Require Import Dec Types Bank Match Step Genesis Model Spec.
-From FR.Proofs Require Import FrameFacts TxFacts BlockFacts LifeTheorems LifeExamples.
+From FR.Proofs Require Import FrameFacts TxFacts BlockFacts LifeTheorems GenesisFacts LifeExamples.
 Import ListNotations.
 Open Scope Z_scope.
 
@@ -13,6 +13,18 @@ Theorem C08_forward : forall s o id a,
   exists a', find_auction (snd (step s o)) id = Some a' /\ forward (a_status a) (a_status a') = true.
 Proof. exact L_C08_forward. Qed.
 Print Assumptions C08_forward.
+
+(* the same for every operation, GENESIS included, under the stronger invariant
+   gen_ok s := map a_id (st_auctions s) = ids_upto (st_aseq s), which every step preserves *)
+Theorem C08_forward_all : forall s o id a,
+  gen_ok s -> find_auction s id = Some a ->
+  exists a', find_auction (snd (step s o)) id = Some a' /\ forward (a_status a) (a_status a') = true.
+Proof. exact L_C08_forward_all. Qed.
+Print Assumptions C08_forward_all.
+
+Theorem C08_gen_ok_invariant : forall s o, gen_ok s -> gen_ok (snd (step s o)) /\ ids_ok s.
+Proof. intros s o G. split; [apply L_gen_ok_step; exact G|apply gen_ok_ids_ok; exact G]. Qed.
+Print Assumptions C08_gen_ok_invariant.
 
 (* 2. outside block processing a status changes only by an accepted cancellation of that very auction *)
 Theorem C08_only_block_or_cancel : forall s o id a a',
@@ -89,6 +101,11 @@ Print Assumptions C08_bids_only_open_modify.
         and a batch auction in stand-by (id 1) ---- *)
 Example ex_ids_ok_holds : ids_ok ex_s.
 Proof. exact ex_ids_ok. Qed.
+Example ex_gen_ok_holds : gen_ok ex_s.
+Proof. vm_compute. reflexivity. Qed.
+Example ex_genesis_keeps_auctions :
+  fst (step ex_s OGenesis) = GenOk true /\ st_auctions (snd (step ex_s OGenesis)) = st_auctions ex_s.
+Proof. vm_compute. split; reflexivity. Qed.
 Example ex_two_auctions :
   map (fun a => (a_id a, a_type a, a_status a)) (st_auctions ex_s)
   = [(0%N, FixedPrice, Started); (1%N, Batch, StandBy)].
